@@ -1,5 +1,6 @@
 //! avharness: drives the real autosar-data library with the same request stream the Lean driver answers.
-//! usage: avharness <scenario> --out <dir> [--seed N] [--tier quick|thorough] [--side side.json] [--replay file]
+//! usage: avharness <scenario> --out <dir> [--seed N] [--tier quick|thorough] [--side side.json] [--replay file] [--prop Cxx] [--kind basic|sort|copy|files]
+mod c02;
 mod c18;
 mod c19;
 mod c20;
@@ -7,6 +8,7 @@ mod evalreq;
 mod rx;
 mod specwalk;
 mod util;
+mod world;
 
 fn main() {
     let args: Vec<String> = std::env::args().collect();
@@ -20,6 +22,8 @@ fn main() {
     let mut thorough = false;
     let mut side = String::from("/verif/lean/AutosarVerif/Gen/side.json");
     let mut replay: Option<String> = None;
+    let mut prop: Option<String> = None;
+    let mut kind: Option<String> = None;
     let mut i = 2;
     while i < args.len() {
         match args[i].as_str() {
@@ -28,13 +32,21 @@ fn main() {
             "--tier" => { thorough = args[i + 1] == "thorough"; i += 2 }
             "--side" => { side = args[i + 1].clone(); i += 2 }
             "--replay" => { replay = Some(args[i + 1].clone()); i += 2 }
+            "--prop" => { prop = Some(args[i + 1].clone()); i += 2 }
+            "--kind" => { kind = Some(args[i + 1].clone()); i += 2 }
             _ => { i += 1 }
         }
     }
     match scenario.as_str() {
+        "c02" => c02::run(&out, seed, thorough, &side),
+        "c02deep" => c02::deep(seed as usize),
         "c18" => c18::run(&out, seed, thorough, &side),
         "c19" => c19::run(&out, seed, thorough, &side),
         "c20" => c20::run(&out, seed, thorough, &side),
+        "world" => match &replay {
+            Some(file) => world::run_replay(&out, file, prop.as_deref(), kind.as_deref()),
+            None => world::run(&out, seed, thorough, &side, prop.as_deref(), kind.as_deref()),
+        },
         "eval" => evalreq::run(&out, replay.as_deref().expect("--replay <request file>"), &side),
         _ => {
             eprintln!("unknown scenario {scenario}");
